@@ -118,7 +118,7 @@ func blockUntil(ch <-chan struct{}, p time.Duration) bool {
 // ---------------------------------------------------------------- scripts and plans
 
 type action struct {
-	K     string        `json:"k"` // set | add | status | write | sleep | yield
+	K     string        `json:"k"` // set | add | status | write | sleep | yield | flush | push | hijack
 	Key   string        `json:"key,omitempty"`
 	Val   string        `json:"val,omitempty"`
 	Code  int           `json:"code,omitempty"`
@@ -172,6 +172,14 @@ type plan struct {
 	// reader expires the context and blocks in the MIDDLE of the stream - a writer that offers
 	// io.ReaderFrom is inside that one call while the deadline fires and the wrapper has to return.
 	InCopy bool `json:"in_copy,omitempty"`
+	// extensions (ext_test.go)
+	ParentKind  string              `json:"parent_kind,omitempty"`  // grid families: none | earlier | later | cancelled-before | cancelled-during | value
+	WorkKind    string              `json:"work_kind,omitempty"`    // grid families: fast | honours | ignores | panic-before | panic-after
+	ParentValue bool                `json:"parent_value,omitempty"` // the caller's context carries a value
+	Writer      string              `json:"writer,omitempty"`       // client writer variant: "" (plain) | flusher | full | push-hijack
+	ReqHeader   map[string][]string `json:"req_header,omitempty"`   // extra request headers (odd spellings of the exemption headers)
+	MaybeExempt bool                `json:"maybe_exempt,omitempty"` // the statement does not say whether this spelling is exempt: either treatment is legal
+	PreCancel   bool                `json:"pre_cancel,omitempty"`   // the caller's context is cancelled before the call (Mode then only says what the work does)
 }
 
 var statusPool = []int{200, 201, 202, 301, 400, 403, 404, 418, 429, 500, 502, 503, 599}
@@ -239,6 +247,22 @@ type expected struct {
 	Early  http.Header // header operations before the commit point (first status/write)
 	Full   http.Header // all header operations (go-zero buffers headers until completion)
 	Body   string
+	// AltStatus: other statuses the statement leaves open. A script whose first status is an
+	// informational 1xx code: net/http would send it as an interim response and the first
+	// non-1xx status (or the implicit 200) as the final one, go-zero buffers the first code.
+	AltStatus []int
+}
+
+func (e expected) statusOK(code int) bool {
+	if code == e.Status {
+		return true
+	}
+	for _, a := range e.AltStatus {
+		if a == code {
+			return true
+		}
+	}
+	return false
 }
 
 func expect(s script) expected {
@@ -268,6 +292,26 @@ func expect(s script) expected {
 		}
 	}
 	e.Body = body.String()
+	if e.Status >= 100 && e.Status < 200 && e.Status != 101 {
+		final := 200
+		seenFirst := false
+		for _, a := range s.Actions {
+			if a.K == "write" {
+				break
+			}
+			if a.K == "status" {
+				if !seenFirst {
+					seenFirst = true
+					continue
+				}
+				if a.Code >= 200 || a.Code == 101 {
+					final = a.Code
+					break
+				}
+			}
+		}
+		e.AltStatus = append(e.AltStatus, final)
+	}
 	return e
 }
 
@@ -275,9 +319,11 @@ func expect(s script) expected {
 
 type recCall struct {
 	S    uint64 `json:"s"`
-	Kind string `json:"kind"` // header | status | write
+	Kind string `json:"kind"` // header | status | write | flush
 	Code int    `json:"code,omitempty"`
 	N    int    `json:"n,omitempty"`
+	W    bool   `json:"work_bytes,omitempty"`   // write: the payload contains bytes of the work's chunks
+	TO   bool   `json:"timeout_body,omitempty"` // write: the payload is exactly the timeout body
 }
 
 type stallCtl struct {
@@ -288,6 +334,9 @@ type stallCtl struct {
 	extra    int // yields after being released, still inside the call
 	once     sync.Once
 	gaveUp   atomic.Bool
+	// onTO: stall inside the at-th call of the TIMEOUT RESULT (1 = its status 499/503, 2 = its body) instead
+	// of the at-th status/write call overall (scripts that stream with Flush make earlier calls themselves)
+	onTO bool
 }
 
 // recorder is the harness-owned http.ResponseWriter ("the client"). All of its state is
@@ -304,6 +353,9 @@ type recorder struct {
 	body   bytes.Buffer
 	stall  *stallCtl
 	jitter int
+	mark   string // "[<tag>-w": prefix of every chunk of the work
+	pushes int
+	hijack int
 }
 
 func newRecorder() *recorder { return &recorder{hdr: http.Header{}} }
@@ -323,12 +375,19 @@ func (r *recorder) commitLocked(code int) {
 	}
 }
 
-func (r *recorder) pause(n int) {
+func (r *recorder) pause(n, toCall int) {
 	for i := 0; i < r.jitter; i++ {
 		runtime.Gosched()
 	}
 	st := r.stall
-	if st == nil || n != st.at {
+	if st == nil {
+		return
+	}
+	if st.onTO {
+		if toCall != st.at {
+			return
+		}
+	} else if n != st.at {
 		return
 	}
 	st.once.Do(func() { close(st.entered) })
@@ -355,19 +414,37 @@ func (r *recorder) WriteHeader(code int) {
 	r.nwrite++
 	n := r.nwrite
 	r.mu.Unlock()
-	r.pause(n)
+	to := 0
+	if code == 499 || code == 503 {
+		to = 1
+	}
+	r.pause(n, to)
 }
 
 func (r *recorder) Write(p []byte) (int, error) {
+	isTO := string(p) == timeoutBody
 	r.mu.Lock()
-	r.calls = append(r.calls, recCall{S: kit.Stamp(), Kind: "write", N: len(p)})
+	r.calls = append(r.calls, recCall{S: kit.Stamp(), Kind: "write", N: len(p), TO: isTO,
+		W: r.mark != "" && bytes.Contains(p, []byte(r.mark))})
 	r.commitLocked(200)
 	r.body.Write(p)
 	r.nwrite++
 	n := r.nwrite
 	r.mu.Unlock()
-	r.pause(n)
+	to := 0
+	if isTO {
+		to = 2
+	}
+	r.pause(n, to)
 	return len(p), nil
+}
+
+// flushed records a Flush that reached "the connection" (writer variants of ext_test.go).
+func (r *recorder) flushed() {
+	r.mu.Lock()
+	r.calls = append(r.calls, recCall{S: kit.Stamp(), Kind: "flush"})
+	r.commitLocked(200)
+	r.mu.Unlock()
 }
 
 type recState struct {
@@ -401,6 +478,7 @@ type restExec struct {
 	pl  plan
 	exp expected
 	rec *recorder
+	w   http.ResponseWriter // what is handed to the wrapper: rec itself or a writer variant around it (ext_test.go)
 
 	parent       context.Context
 	cancel       context.CancelFunc
@@ -430,6 +508,7 @@ type restExec struct {
 	lateOK                 int
 	lateRejected           int
 	copiesWithExpiryInside int
+	valueSeen              bool
 
 	// written by the calling goroutine
 	t0, tRet time.Time
@@ -468,6 +547,17 @@ func (x *restExec) expire(ctx context.Context) {
 		if !blockUntil(x.wrapperRet, x.patience) {
 			x.blockTimeout = true
 		}
+	case "timer-wait-ctx":
+		// work that honours its context: goes on once it is done (a real deadline, nobody cancels)
+		x.blockKind = "work-context-done"
+		t := time.NewTimer(x.patience)
+		select {
+		case <-ctx.Done():
+		case <-x.wrapperRet:
+		case <-t.C:
+			x.blockTimeout = true
+		}
+		t.Stop()
 	case "stall":
 		x.cancelS.Store(kit.Stamp())
 		x.cancel()
@@ -528,10 +618,9 @@ func (x *restExec) serve(w http.ResponseWriter, r *http.Request) {
 	x.t1 = time.Now()
 	ctx := r.Context()
 	x.seenDl, x.seenOk = ctx.Deadline()
-	if rw, ok := w.(*recorder); ok && rw == x.rec {
-		x.sameWriter = true
-	}
+	x.sameWriter = sameWriter(w, x.w)
 	x.sameCtx = ctx == x.parent
+	x.valueSeen = ctx.Value(ctxKey{}) == any(x.sc.Tag)
 	expired := false
 	for i, a := range x.sc.Actions {
 		inCopy := x.pl.InCopy && x.pl.Pos == i && a.K == "write"
@@ -570,6 +659,28 @@ func (x *restExec) serve(w http.ResponseWriter, r *http.Request) {
 			time.Sleep(a.Dur)
 		case "yield":
 			runtime.Gosched()
+		case "flush":
+			if f, ok := w.(http.Flusher); ok {
+				f.Flush()
+			} else {
+				ev.Err = "not a Flusher"
+			}
+		case "push":
+			if p, ok := w.(http.Pusher); ok {
+				if err := p.Push("/verif-push/"+x.sc.Tag, nil); err != nil {
+					ev.Err = err.Error()
+				}
+			} else {
+				ev.Err = "not a Pusher"
+			}
+		case "hijack":
+			if h, ok := w.(http.Hijacker); ok {
+				if _, _, err := h.Hijack(); err != nil {
+					ev.Err = err.Error()
+				}
+			} else {
+				ev.Err = "not a Hijacker"
+			}
 		}
 		ev.S1 = kit.Stamp()
 		x.evs = append(x.evs, ev)
@@ -589,6 +700,8 @@ func newRestExec(sc script, pl plan) *restExec {
 		wrapperRet: make(chan struct{}), workDone: make(chan struct{}), flag: make(chan struct{}),
 		cancellerEnd: make(chan struct{}), giveUp: make(chan struct{}), patience: patience()}
 	x.rec.jitter = pl.Jitter
+	x.rec.mark = "[" + sc.Tag + "-w"
+	x.w = writerVariant(pl.Writer, x.rec)
 	if pl.Mode == "stall" {
 		at := pl.StallAt
 		if at < 1 {
@@ -611,6 +724,9 @@ func (x *restExec) run(h http.Handler) bool {
 		base = c
 		cancels = append(cancels, cf)
 	}
+	if x.pl.ParentValue {
+		base = context.WithValue(base, ctxKey{}, x.sc.Tag)
+	}
 	x.parent, x.cancel = context.WithCancel(base)
 	defer func() {
 		x.cancel()
@@ -619,6 +735,9 @@ func (x *restExec) run(h http.Handler) bool {
 		}
 	}()
 	req, _ := http.NewRequestWithContext(x.parent, http.MethodGet, "http://verif.local/c04", nil)
+	for k, vv := range x.pl.ReqHeader {
+		req.Header[k] = append([]string(nil), vv...)
+	}
 	switch x.pl.Exempt {
 	case "websocket":
 		req.Header.Set("Upgrade", "websocket")
@@ -639,7 +758,7 @@ func (x *restExec) run(h http.Handler) bool {
 	} else {
 		close(x.cancellerEnd)
 	}
-	if x.pl.Mode == "pre" {
+	if x.pl.Mode == "pre" || x.pl.PreCancel {
 		x.cancelS.Store(kit.Stamp())
 		x.cancel()
 	}
@@ -654,7 +773,7 @@ func (x *restExec) run(h http.Handler) bool {
 			x.tRet = time.Now()
 			close(x.wrapperRet)
 		}()
-		h.ServeHTTP(x.rec, req)
+		h.ServeHTTP(x.w, req)
 	}()
 	if !awaitWrapper(x.wrapperRet) {
 		close(x.giveUp)
@@ -821,7 +940,13 @@ func (x *restExec) evaluate(rp reporter) verdict {
 		if x.seenOk != x.hasParentDl || (x.seenOk && !x.seenDl.Equal(x.parentDl)) {
 			rp.viol("exempt", "deadline-imposed-"+x.pl.Exempt, fmt.Sprintf("exempt request (%s) ran under deadline %s, caller's was %s", x.pl.Exempt, fmtDl(x.seenDl, x.seenOk), fmtDl(x.parentDl, x.hasParentDl)), x.witness(st))
 		}
-		if !x.sameWriter {
+		if x.pl.Exempt == "nonpositive" {
+			// a timeout <= 0 disables the wrapper: nothing may be held back (decided from the stamps: every
+			// write of the work reached the client writer before the write returned)
+			if i := x.firstBufferedWrite(st); i >= 0 {
+				rp.viol("exempt", "buffered-nonpositive", fmt.Sprintf("timeout %s <= 0: write action %d of the work had not reached the client writer when it returned", x.pl.Timeout, i), x.witness(st))
+			}
+		} else if !x.sameWriter {
 			rp.viol("exempt", "writer-wrapped-"+x.pl.Exempt, "exempt request did not get the raw ResponseWriter", x.witness(st))
 		}
 	}
@@ -842,7 +967,7 @@ func (x *restExec) evaluate(rp reporter) verdict {
 
 	// (2) all-or-nothing
 	isTimeoutStatus := st.Status == 499 || st.Status == 503
-	matchComplete := st.Wrote && st.Status == x.exp.Status && st.Body == x.exp.Body && headersMatch(st.Sent, x.exp)
+	matchComplete := st.Wrote && x.exp.statusOK(st.Status) && st.Body == x.exp.Body && headersMatch(st.Sent, x.exp)
 	matchTimeout := st.Wrote && isTimeoutStatus && st.Body == timeoutBody && len(nonEmpty(st.Sent)) == 0
 	switch {
 	case x.panicked:
@@ -1295,6 +1420,11 @@ type fxPlan struct {
 	Work        time.Duration `json:"work,omitempty"`      // timer: duration of fn
 	Ret         string        `json:"ret"`                 // nil | err | panic
 	Jitter      int           `json:"jitter,omitempty"`
+	// extensions (ext_test.go, grid family)
+	ParentKind  string `json:"parent_kind,omitempty"`
+	WorkKind    string `json:"work_kind,omitempty"`
+	ParentValue bool   `json:"parent_value,omitempty"`
+	PreCancel   bool   `json:"pre_cancel,omitempty"`
 }
 
 type fxExec struct {
@@ -1302,6 +1432,7 @@ type fxExec struct {
 	tag      string
 	workErr  error
 	cancel   context.CancelFunc
+	parent   context.Context
 	cancelS  atomic.Uint64
 	wrapRet  chan struct{}
 	workDone chan struct{}
@@ -1350,6 +1481,16 @@ func (x *fxExec) fn() error {
 		if x.pl.Work > 0 {
 			time.Sleep(x.pl.Work)
 		}
+	case "timer-wait-parent":
+		// fn gets no context from DoWithTimeout; work that "honours" cancellation can only watch the caller's
+		t := time.NewTimer(x.patience)
+		select {
+		case <-x.parent.Done():
+		case <-x.wrapRet:
+		case <-t.C:
+			x.blockTimeout = true
+		}
+		t.Stop()
 	}
 	if x.pl.Ret == "panic" {
 		x.workPanicS = kit.Stamp()
@@ -1378,8 +1519,12 @@ func (x *fxExec) run() bool {
 		base = c
 		cancels = append(cancels, cf)
 	}
+	if x.pl.ParentValue {
+		base = context.WithValue(base, ctxKey{}, x.tag)
+	}
 	parent, cancel := context.WithCancel(base)
 	x.cancel = cancel
+	x.parent = parent
 	defer func() {
 		cancel()
 		for _, cf := range cancels {
@@ -1400,7 +1545,7 @@ func (x *fxExec) run() bool {
 	} else {
 		close(x.cEnd)
 	}
-	if x.pl.Mode == "pre" {
+	if x.pl.Mode == "pre" || x.pl.PreCancel {
 		x.cancelS.Store(kit.Stamp())
 		cancel()
 	}
@@ -1992,5 +2137,12 @@ func TestVerifC04(t *testing.T) {
 	kit.Run(t, "C04", "fx-cancel", kit.N(4000, 50000), fxCancelCase)
 	kit.Run(t, "C04", "fx-timer", kit.N(1000, 15000), fxTimerCase)
 	kit.Run(t, "C04", "e2e", kit.N(24, 160), e2eCase)
+	// extensions (ext_test.go)
+	kit.Run(t, "C04", "rest-grid", kit.N(160, 2000), restGridCase)
+	kit.Run(t, "C04", "fx-grid", kit.N(160, 2000), fxGridCase)
+	kit.Run(t, "C04", "rest-status", kit.N(500, 8000), restStatusCase)
+	kit.Run(t, "C04", "rest-flush", kit.N(600, 10000), restFlushCase)
+	kit.Run(t, "C04", "rest-odd-exempt", kit.N(120, 1500), restOddExemptCase)
+	kit.Run(t, "C04", "e2e-config", kit.N(40, 200), e2eConfigCase)
 	kit.End()
 }
